@@ -1,6 +1,7 @@
 package c09
 
 import (
+	"time"
 	"encoding/json"
 	"fmt"
 	"os"
@@ -28,7 +29,7 @@ var worker *wk.Client
 
 func getWorker() *wk.Client {
 	if worker == nil {
-		worker = wk.New(wk.Options{})
+		worker = wk.New(wk.Options{CPULimit: 150 * time.Second}) // generous: the budget only separates "slow on a loaded machine" from "does not terminate"
 	}
 	return worker
 }
